@@ -16,6 +16,7 @@ func init() {
 	commands["c01"] = func(seed uint64, n int, out, stats string, a []string) { runLedgerMon("C01", seed, n, out, stats) }
 	commands["c02"] = func(seed uint64, n int, out, stats string, a []string) { runLedgerMon("C02", seed, n, out, stats) }
 	commands["c03node"] = func(seed uint64, n int, out, stats string, a []string) { runLedgerMon("C03", seed, n, out, stats) }
+	commands["c26node"] = func(seed uint64, n int, out, stats string, a []string) { runLedgerMon("C26", seed, n, out, stats) }
 	commands["c27node"] = func(seed uint64, n int, out, stats string, a []string) { runLedgerMon("C27", seed, n, out, stats) }
 	commands["c05node"] = func(seed uint64, n int, out, stats string, a []string) { runLedgerMon("C05", seed, n, out, stats) }
 	commands["c06node"] = func(seed uint64, n int, out, stats string, a []string) { runLedgerMon("C06", seed, n, out, stats) }
@@ -78,6 +79,9 @@ func runLedgerMon(pid string, seed uint64, n int, out, stats string) {
 				g.Weights[k] = v
 			}
 		}
+		if pid == "C26" {
+			g.Replay, g.Monitors, g.Malformed = true, false, false
+		}
 		if pid == "C27" {
 			g.FeeRoute, g.Monitors, g.Malformed = true, false, false
 			g.Weights = map[string]int{"send": 12, "multisend": 4, "createcoin": 5, "createpool": 8, "sellcoin": 3, "buycoin": 3, "sellpool": 4, "buypool": 3, "addliq": 2, "createtoken": 2, "delegate": 2, "lock": 2, "addorder": 3}
@@ -125,6 +129,10 @@ func runLedgerMon(pid string, seed uint64, n int, out, stats string) {
 		if pid == "C03" {
 			fails = res.C03
 			agree += res.C03Checked
+		}
+		if pid == "C26" {
+			fails = res.C26
+			agree += res.C26Replays
 		}
 		if pid == "C27" {
 			fails = res.C27
